@@ -162,10 +162,10 @@ REGISTRY = {
             {"engine": "lag", "quick": {"n": 1}, "thorough": {"tier": "thorough"}, "oracle": True, "mismatch_is_failure": True, "timeout": 3400,
              "nontrivial": lambda case, res: res.startswith("ok") and "keys=-" not in res,
              "distinct_key": lambda case, res: res,
-             "what": "child processes pinned (taskset) to 1,2,3,4,6,8,12 or 16 CPUs -- which fixes how many write-buffer shards and workers the store builds -- run workloads over 8-400 keys (so every shard is touched), small ones and bursts of 600-1500 calls, that never call flush and never close; after 1.5-2 s of waiting, idle or with a neighbour thread that keeps writing other keys, the process is killed. The device image rebuilt from the H1 trace with ONLY the writes covered by a successful fsync must reopen (real code, fresh process) with every key at the state it had before the wait (window oracle, the wait counts as the acknowledgement) and must equal Model.Recovery.open_image; in idle runs the image must also hold no un-retired superseded or deleted generation"},
+             "what": "child processes pinned (taskset) to 1,2,3,4,6,8,12 or 16 CPUs -- which fixes how many write-buffer shards and workers the store builds -- run workloads over 8-400 keys (so every shard is touched), small ones and bursts of 600-1500 calls, that never call flush and never close; after 3-3.5 s of waiting, idle or with a neighbour thread that keeps writing other keys, the process is killed. The device image rebuilt from the H1 trace with ONLY the writes covered by a successful fsync must reopen (real code, fresh process) with every key at the state it had before the wait (window oracle, the wait counts as the acknowledgement) and must equal Model.Recovery.open_image; in idle runs the image must also hold no un-retired superseded or deleted generation"},
         ],
         "nontrivial_rule": "a case is one image of one workload; non-trivial = it opened and held at least one key; distinct by contents",
-        "assumptions": ["the bound checked is 1.5 s (15 flush intervals), generous enough for this sandbox under 16-way parallel load",
+        "assumptions": ["the bound checked is 3 s (30 flush intervals): the property speaks of well under a few seconds on a responsive machine; the check must not raise an alarm on a loaded one",
                         "a woken worker is scheduled and its device calls return: runtime behaviour, observed not proved"],
     },
     "C20": {
